@@ -52,4 +52,34 @@ def C12_S (id : Int) : RSchema :=
 example : wf reflTy (reflect (C12_S 1)) = true := by decide
 theorem C12_negative_id_counterexample : wf reflTy (reflect (C12_S (-1))) = false := by decide
 
+/-- the class of `C12_lossless`, described on the schema: the record fits reflection.fcp exactly
+when ids are in `u32`, enumerators and positions in `i32`, the version in `u16`, texts 7-bit and
+lists shorter than 2^32 (`InReflRange` spells the bounds out declaration by declaration) -/
+theorem C12_in_range_exact (S : RSchema) : wf reflTy (reflect S) = InReflRange S := wf_reflect S
+
+/-- **lossless, on the schema**: every schema within those bounds round-trips -/
+theorem C12_lossless_in_range (R : Schema) (fuel : Nat) (hR : resolve R fuel (.struct "Fcp") = some reflTy)
+    (S : RSchema) (h : InReflRange S = true) :
+    ∃ bytes, pyEncode R fuel "Fcp" (reflect S) = .ok bytes ∧
+      pyDecode R fuel "Fcp" bytes = .ok (reflect S) :=
+  C12_lossless R fuel hR S (by rw [wf_reflect]; exact h)
+
+/-- the type part of the bounds holds for every type the language can write: widths and array
+sizes below 2^32 − 2, 7-bit type names, nesting shallower than 2^32 -/
+theorem C12_types_in_range (t : RTy) (h : smallTy t = true) (hd : t.depth + 1 < 2^32) : okTy t = true :=
+  okTy_of_small t h hd
+
+example : InReflRange (C12_S 1) = true := by decide
+
+/-- recorded finding `enumerator-beyond-i32`: an enumerator of 2^32 + 5 (accepted by parser and
+verifier, 33 bits on the wire) leaves the class, and the bytes of its record decode to
+another record (the enumerator comes back as 5) -/
+def C12_E (v : Int) : RSchema :=
+  { enums := [{ name := [69], pos := none, items := [{ name := [66], value := v, pos := none }] }] }
+theorem C12_enumerator_beyond_i32_counterexample :
+    InReflRange (C12_E 4294967301) = false ∧
+    decBytes reflTy (encBytes reflTy (reflect (C12_E 4294967301))) = some (reflect (C12_E 5)) := by
+  constructor <;> decide +kernel
+example : InReflRange (C12_E 2147483647) = true := by decide
+
 end Fcp
